@@ -37,6 +37,31 @@ def _run(case):
     if int(post.R) != R or int(post.Dx) != Dy or int(post.Dy) != Dx:
         fails.append(Failure(tag + ":shape", f"p(x|y) has R={post.R}, Dx={post.Dx}, Dy={post.Dy}; expected R={R}, Dx={Dy}, Dy={Dx}"))
         return fails
+    # parameters of p(x|y) against the information form (Lambda_post = Lambda_x + M' Lambda_y M), which stays accurate when the
+    # observation is much sharper than the prior
+    Ly_, Lx_ = oracle.inv_spd(S), oracle.inv_spd(Sig)
+    Mp, bp, Sp, Lp = [], [], [], []
+    for r, rc, rx in _cond.pairs(case):
+        Lpost = Lx_[rx] + M[rc].T @ Ly_[rc] @ M[rc]
+        Lpost = 0.5 * (Lpost + Lpost.T)
+        Spost = oracle.inv_spd(Lpost[None])[0]
+        Mp.append(Spost @ M[rc].T @ Ly_[rc])
+        bp.append(Spost @ (Lx_[rx] @ mu[rx] - M[rc].T @ Ly_[rc] @ b[rc]))
+        Sp.append(Spost)
+        Lp.append(Lpost)
+    Mp, bp, Sp, Lp = np.stack(Mp), np.stack(bp), np.stack(Sp), np.stack(Lp)
+    kpost = np.maximum(1.0, oracle.cond(Lp))
+    if np.all(kpost < 1e6):
+        amp_ = (kpost * np.maximum(1.0, oracle.cond(S))[[rc for _, rc, _ in _cond.pairs(case)]])[:, None, None]
+        check(fails, tag + ":post_Sigma", np.asarray(post.Sigma), Sp, np.abs(Sp).max((1, 2))[:, None, None] * amp_ * np.ones_like(Sp))
+        check(fails, tag + ":post_Lambda", np.asarray(post.Lambda), Lp, np.abs(Lp).max((1, 2))[:, None, None] * amp_ * np.ones_like(Lp))
+        check(fails, tag + ":post_M", np.asarray(post.M), Mp, (1 + np.abs(Mp).max((1, 2)))[:, None, None] * amp_ * np.ones_like(Mp))
+        bsc = (1 + np.abs(mu).max() + np.abs(b).max() + np.abs(Mp).max((1, 2)) * (np.abs(b).max() + np.abs(M).max() * np.abs(mu).max()))
+        check(fails, tag + ":post_b", np.asarray(post.b), bp, bsc[:, None] * amp_[:, :, 0] * np.ones_like(bp))
+        ldp, ldps = oracle.slogdet_spd(Lp)
+        check(fails, tag + ":post_ln_det_Sigma", np.asarray(post.ln_det_Sigma), -ldp, ldps)
+    if case.get("sharp"):
+        return fails  # the log-density and round-trip comparisons below use covariance-form references: not judged here
     want = np.zeros((R, N))
     scale = np.zeros_like(want)
     mys, Sys = [], []
@@ -97,7 +122,7 @@ def _nontrivial(case):
 
 
 SUBS = [
-    Sub("conditional", _cond.pool, lambda shapes: _cond.strategy(shapes, far_mean=True), _run, _nontrivial, _cond.labels,
+    Sub("conditional", _cond.pool, lambda shapes: _cond.strategy(shapes, far_mean=True, sharp=True), _run, _nontrivial, _cond.labels,
         examples={"quick": 120, "thorough": 400}, shards={"quick": 12, "thorough": 28},
         rule="batch combo != (1,1) or Dx != Dy"),
 ]
